@@ -26,7 +26,7 @@ func init() {
 			"non-trivial = the evaluation produced at least one diagnostic and the program reads a canary-carrying variable; distinct by program + scope hash",
 		Assumptions: []string{"canaries are random 14-character / 10-digit strings that do not occur in the source text, in identifiers or in any message template, so a hit can only come from a value", "messages of harness functions are fixed canary-free strings (application functions are outside the guarantee)"},
 		Quick:       Plan{Batches: 16, PerBatch: 5000, MinNonTrivial: 12000},
-		Thorough:    Plan{Batches: 64, PerBatch: 30000, MinNonTrivial: 150000},
+		Thorough:    Plan{Batches: 64, PerBatch: 60000, MinNonTrivial: 150000},
 		Case:        c19Case,
 	})
 }
